@@ -389,11 +389,26 @@ package badger
 //@   assert[user-key] before call hasAnyPrefixes : arg0 == ret(ParseKey#1) && arg1 == dropPrefixes
 //@   assert[of-current-key] before call ParseKey#1 : arg0 == ret(Key#1)
 
+// addKeys decides which versions a compaction keeps (C13, C12, C14, C33, C29). Checked here:
+// an entry is dropped by the version rule only at or below the discard timestamp and never when
+// it is a merge-operator entry; "skip the older versions" is armed only there too; a deleted or
+// expired newest version is dropped only when no older version can survive elsewhere
+// (hasOverlap false), otherwise the marker is kept; the version that ends retention is the one
+// with the discard-earlier bit or the NumVersionsToKeep-th; a table is ended only between
+// distinct user keys; the drop prefixes are tested against the user key.
 //@ func (*levelsController).subcompact.addKeys
-//@   props C29
+//@   props C29 C13 C12 C14 C33
 //@   light
 //@   assert[user-key] before call hasAnyPrefixes : arg0 == ret(ParseKey#1)
 //@   assert[of-current-key] before call ParseKey#1 : arg0 == ret(Key#1)
+//@   assert[drop-only-at-or-below-watermark] before call updateStats#3 : version <= discardTs && vs.Meta&bitMergeEntry == 0
+//@   assert[marker-kept-when-older-may-survive] before call updateStats#3 : isExpired && !hasOverlap
+//@   assert[skip-armed-only-below-watermark] before call SafeCopy#3 : version <= discardTs && vs.Meta&bitMergeEntry == 0 && (isExpired || lastValidVersion)
+//@   assert[retention-count] before call SafeCopy#3 : lastValidVersion == (vs.Meta&bitDiscardEarlierVersions > 0 || numVersions == s.kv.opt.NumVersionsToKeep)
+//@   assert[expiry-of-current] before call isDeletedOrExpired : arg0 == vs.Meta && arg1 == vs.ExpiresAt
+//@   assert[table-ends-between-keys] before call ReachedCapacity : !ret(SameKey#2)
+//@   assert[range-ends-between-keys] before call CompareKeys : !ret(SameKey#2) && arg1 == kr.right
+//@   assert[version-of-current] before call ParseTs : called(Value)
 
 //@ func (*levelsController).compactBuildTables.keepTable
 //@   props C29
